@@ -181,9 +181,9 @@ def finding_key(case, kd=None):
     if case.get('solver') == 'expmv' and case.get('op') == 'nilpotent':
         t = case.get('t')
         at = abs(complex(t['re'], t['im'])) if isinstance(t, dict) else abs(t)
-        if at >= 100:
+        if at >= 30:
             return 'expmv:nilpotent-large-t'
-    if case.get('solver') == 'eigs' and kd is not None and case.get('ncv', 0) > kd:
+    if case.get('solver') == 'eigs' and kd is not None and case.get('ncv', 0) >= kd:
         return 'eigs:ncv-exceeds-krylov-dimension'
     return None
 
